@@ -51,8 +51,9 @@ def base_cfg(prop):
 def configure_world(w, prop):
     from . import oracles
 
+    w.seam.keep_fun = True
+    w.extra_oracles.append(oracles.grid_absolute)
     if prop == "C09":
-        w.seam.keep_fun = True
         w.extra_oracles.append(oracles.c09_constants)
     if prop == "C10":
         w.seam.keep_fun = True
